@@ -378,6 +378,7 @@ pub(crate) fn process_handler_blueprint(
           internal_ops.take_op_details(user_data);
           return Err(HandlerSqeBlueprint::RequestClose);
         } else {
+          crate::verif_event!("fd.close_queued", "\"fd\":{}", fd);
           counter!(worker.metrics, sqe_op_other, inc);
           trace!(
             "CQE Processor: Queued Close SQE (ud:{}) for FD {}.",
@@ -867,6 +868,7 @@ pub(crate) fn process_all_cqes(
           }
         }
         InternalOpType::CloseFd => {
+          crate::verif_event!("fd.closed", "\"fd\":{},\"res\":{}", handler_fd, cqe_result);
           if cqe_result >= 0 {
             info!(
               "CQE Processor: Internal CloseFd op (ud:{}) for FD {} successful.",
